@@ -29,6 +29,7 @@ Mutants (mutants/C11/*.diff), each run through the complete quick tier in a scra
                        C11-anchored-first-success, so the disagreements are filed under that finding (limit of the classification while
                        that defect is open; once it is fixed the mutant's cases become violations).
   seeded/C11-a1        intersectRanges drops a shared end point (closure becomes possessive)  DETECTED (T family C: /[\\--a]*[\\-]/ rejects "-")
+  seeded/C11-a2        findFixedString takes the literal of a {0,m} group as required substring  DETECTED (T family D: /b(aa){0,}/ misses "b" without F)
 """
 import json
 import os
